@@ -154,7 +154,11 @@ def replace_subgroups(
             value_of_selection = selection
             child_selections = None
 
-        if is_dataclass_type(value_of_selection):
+        if value_of_selection is None and child_selections and is_dataclass_instance(field_value):
+            # Only the subgroups *below* this field are being replaced: descend into the current
+            # value, whatever the kind of the field (plain, Optional, Union or subgroups).
+            pass
+        elif is_dataclass_type(value_of_selection):
             field_value = value_of_selection()
         elif is_dataclass_instance(value_of_selection):
             field_value = copy.deepcopy(value_of_selection)
